@@ -135,6 +135,7 @@ def rule_decline(ctx, rep):
 
 
 def run(ctx, rep):
+    balance.rule_unique_view(ctx, rep)  # nothing lends out the shared handle inside a UniqueArc: "sole owner by type" stays true
     rule_unwrap(ctx, rep)
     # premise of every verdict on "sole owner": the count equals the number of owning handles on every path of every
     # operation, unwinding included (the balance rules of C01/C04)
